@@ -2857,7 +2857,10 @@ func (lv *leafValue) lastUpdateBetween(hLog appendable.Appendable, initialTs, fi
 	hOff := lv.hOff
 	skippedUpdates := uint64(0)
 
-	for i := uint64(0); i < lv.hCount; i++ {
+	// lv.hCount is the number of values in the history log (each record may hold several),
+	// reading must stop once all of them were visited: the offset kept by the oldest record
+	// does not point to a record of this key
+	for skippedUpdates < lv.hCount {
 		r := appendable.NewReaderFrom(hLog, hOff, DefaultMaxNodeSize)
 
 		hc, err := r.ReadUint32()
